@@ -402,6 +402,7 @@ pub async fn run_app(ix: usize, f: TcpFlow, obs: Shared<FlowObs>, atomic_handsha
             let _ = rx.wait_for(|n| *n == usize::MAX).await;
         }
         Ending::AppAbandon => {}
+        Ending::AppResetAfterWrite => abort_after_data(cid, 0),
         Ending::AppAfterAll => {
             let want = f.down_total();
             // slow is not stalled: wait as long as it takes; the driver decides when nothing moves any more
@@ -432,6 +433,11 @@ pub async fn run_app(ix: usize, f: TcpFlow, obs: Shared<FlowObs>, atomic_handsha
         o.app.fin_ns.get_or_insert(now_ns());
     }
     drop(wr);
+}
+
+/// the close that follows is an abort ordered after the data this side has written (`Pipe::fin_is_rst`)
+pub fn abort_after_data(cid: usize, side: usize) {
+    world::with(|w| w.conns[cid].pipes[side].fin_is_rst = true);
 }
 
 pub fn reset_conn(cid: usize) {
@@ -508,6 +514,7 @@ pub async fn run_target(ix: usize, f: TcpFlow, obs: Shared<FlowObs>) {
                     let _ = rx.wait_for(|n| *n == usize::MAX).await;
                 }
                 Ending::TargetAbandon => {}
+                Ending::TargetResetAfterWrite => abort_after_data(cid, 1),
                 Ending::TargetAfterAll => {
                     let want = expected_up(&f, ix).len();
                     // slow is not stalled: wait as long as it takes; the driver decides when nothing moves any more
